@@ -7,6 +7,7 @@ import OV.Model.C08Creation
 import OV.Model.C08Attr
 import OV.Model.C08Misc
 import OV.Model.C08Scalar
+import OV.Model.C08Linalg
 import OV.Drivers.Loop
 /-! Line-protocol driver for C08.  `C08 <fn> <args…>` → `term @ model @ spec`.
     shape: `2,3` (`-` = rank 0); shape list: `2,3/2,1`; int list: `1,2` (`-` = empty); `N` = None. -/
@@ -146,6 +147,33 @@ def handle (args : List String) : String :=
       let ss ← pShapes ss; let d ← pInt d
       pure (out (cat.term ss d) (rS (cat.model ss d)) (rS (cat.spec ss d)))).getD bad
   -- reductions
+  | ["matmul", f, a, b] => (do
+      let a ← pShape a; let b ← pShape b
+      pure (out matmul.term (rS (matmul.model a b)) (rS (matmul.specOf f a b)))).getD bad
+  | ["maxmin_dim", f, s, d, k] => (do
+      let s ← pShape s; let d ← pInt d; let k ← pBool k
+      let red := if f == "max_dim" then "ReduceMax" else "ReduceMin"
+      let arg := if f == "max_dim" then "ArgMax" else "ArgMin"
+      pure (out (max_dim.term red arg s.length d k) (rL (max_dim.model s d k)) (rL (max_dim.spec s d k)))).getD bad
+  | ["logsumexp", s, z, k] => (do
+      let s ← pShape s; let z ← pInts z; let k ← pBool k
+      pure (out (logsumexp.term s.length z k) (rS (logsumexp.model s z k)) (rS (logsumexp.spec s z k)))).getD bad
+  | ["logcumsumexp", s, d] => (do
+      let s ← pShape s; let d ← pInt d
+      pure (out (logcumsumexp.term s.length d) (rS (logcumsumexp.model s d)) (rS (logcumsumexp.spec s d)))).getD bad
+  | ["embedding", w, ix] => (do
+      let w ← pShape w; let ix ← pShape ix
+      pure (out embedding.term (rS (embedding.model w ix)) (rS (embedding.spec w ix)))).getD bad
+  | ["scatter", f, s, ix, src, d] => (do
+      let s ← pShape s; let ix ← pShape ix; let src ← pShape src; let d ← pInt d
+      let isAdd := f == "scatter_add"
+      pure (out (scatter.term isAdd ix.length src.length d) (rS (scatter.model isAdd s ix src d)) (rS (scatter.spec s ix src d)))).getD bad
+  | ["pixel_shuffle", s, r] => (do
+      let s ← pShape s; let r ← pInt r
+      pure (out (pixel_shuffle.term s.length r) (rS (pixel_shuffle.model s r)) (rS (pixel_shuffle.spec s r)))).getD bad
+  | ["pixel_unshuffle", s, r] => (do
+      let s ← pShape s; let r ← pInt r
+      pure (out (pixel_unshuffle.term r) (rS (pixel_unshuffle.model s r)) (rS (pixel_unshuffle.spec s r)))).getD bad
   | ["sum", s] => (do
       let s ← pShape s
       pure (out (sum.term s.length) (rS (sum.model s)) (rS (sum.spec s)))).getD bad
@@ -157,9 +185,8 @@ def handle (args : List String) : String :=
       pure (out (mean_dim.term s.length z k) (rS (mean_dim.model s z k)) (rS (mean_dim.spec s z k)))).getD bad
   | [f, s, z, k] =>
     if f == "amax" || f == "amin" then (do
-      let s ← pShape s; let z ← (if z == "N" then some none else (pInts z).map some); let k ← pBool k
-      let red := if f == "amax" then "ReduceMax" else "ReduceMin"
-      pure (out (amax.term red z k) (rS (amax.model s z k)) (rS (amax.spec s z k)))).getD bad
+      let s ← pShape s; let z ← pInts z; let k ← pBool k
+      pure (out (amax.term ("aten_" ++ f) z k) (rS (amax.model s z k)) (rS (amax.spec s z k)))).getD bad
     else if f == "all_dim" || f == "any_dim" then (do
       let s ← pShape s; let d ← pInt z; let k ← pBool k
       let red := if f == "all_dim" then "ReduceMin" else "ReduceMax"
